@@ -7,26 +7,30 @@ From Pnc Require Export Nonblocking.
 Require Import Coq.FSets.FMapPositive.
 Local Open Scope Z_scope.
 
-(* interpreter speed only: re-tabulate the bytes [lo,hi) of a disk in a balanced map, so that reading a
-   byte no longer walks the chain of all earlier writes (same bytes, extensionally) *)
-Definition freeze (d : disk) (lo hi : Z) : disk :=
-  let m := fold_left (fun m x => PositiveMap.add (Z.to_pos (x - lo + 1)) (dk_get d x) m)
-                     (zrange lo (hi - lo)) (PositiveMap.empty byte) in
-  mkdisk (dk_exists d) (dk_size d)
-         (fun x => if (lo <=? x) && (x <? hi)
-                   then match PositiveMap.find (Z.to_pos (x - lo + 1)) m with Some b => b | None => UNDEF end
-                   else dk_get d x).
+(* interpreter speed only: the file of the world is always a table (balanced map) of the bytes written so
+   far; after an operation the bytes it may have written are re-read through the chain of its writes
+   and stored in the table, so that reading a byte never walks the writes of earlier operations *)
+Definition fmap := PositiveMap.t byte.
+Definition map_disk (lo : Z) (m : fmap) : disk :=
+  mkdisk true 0 (fun x => if x <? lo then UNDEF
+                          else match PositiveMap.find (Z.to_pos (x - lo + 1)) m with Some b => b | None => UNDEF end).
+Definition retabulate (lo : Z) (m : fmap) (d : disk) (positions : list Z) : fmap :=
+  fold_left (fun m x => if x <? lo then m else PositiveMap.add (Z.to_pos (x - lo + 1)) (dk_get d x) m) positions m.
 
 Record rank_state := mkrs { rs_nb : nbstate; rs_slots : list (Z * Z) }.   (* slot -> stored request id *)
-Record world := mkw { w_ranks : list rank_state; w_file : disk; w_hint : swaphint; w_fmt : Z; w_lo : Z; w_hi : Z }.
+Record world := mkw { w_ranks : list rank_state; w_file : disk; w_hint : swaphint; w_fmt : Z; w_lo : Z; w_map : fmap }.
 
-Definition init_world (np : Z) (h : swaphint) (fmt lo hi : Z) : world :=
-  mkw (map (fun _ => mkrs init_state []) (zrange 0 np)) empty_disk h fmt lo hi.
+Definition init_world (np : Z) (h : swaphint) (fmt lo : Z) : world :=
+  mkw (map (fun _ => mkrs init_state []) (zrange 0 np)) (map_disk lo (PositiveMap.empty byte)) h fmt lo (PositiveMap.empty byte).
 
 Definition get_rank (w : world) (r : Z) : rank_state := znth (w_ranks w) r (mkrs init_state []).
 Definition set_rank (w : world) (r : Z) (rs : rank_state) : world :=
-  mkw (zupd (w_ranks w) r rs) (w_file w) (w_hint w) (w_fmt w) (w_lo w) (w_hi w).
-Definition set_file (w : world) (f : disk) : world := mkw (w_ranks w) (freeze f (w_lo w) (w_hi w)) (w_hint w) (w_fmt w) (w_lo w) (w_hi w).
+  mkw (zupd (w_ranks w) r rs) (w_file w) (w_hint w) (w_fmt w) (w_lo w) (w_map w).
+Definition set_file (w : world) (f : disk) (positions : list Z) : world :=
+  let m := retabulate (w_lo w) (w_map w) f positions in
+  mkw (w_ranks w) (map_disk (w_lo w) m) (w_hint w) (w_fmt w) (w_lo w) m.
+(* every file byte a pending put request of the process addresses *)
+Definition put_positions (st : nbstate) : list Z := flat_map (fun l => map fst (lead_pairs l)) (put_lead st).
 
 Fixpoint slot_get (sl : list (Z * Z)) (s : Z) : Z :=
   match sl with [] => NC_REQ_NULL | (k, v) :: r => if k =? s then v else slot_get r s end.
@@ -135,7 +139,7 @@ Definition step (w : world) (o : op) : world * list (list Z) :=
                      let '(a, rs, r) := q in
                      set_rank w (fst (fst a)) (mkrs (wr_st r) (write_back (rs_slots rs) (snd a) (wr_ids r))))
                    (zip (zip args rss) res) w in
-        (set_file w1 file',
+        (set_file w1 file' (flat_map (fun rs => put_positions (rs_nb rs)) rss),
          flat_map (fun q => let '(a, r) := q in
                             wait_row 2 ln (fst (fst a)) (snd (fst a)) r :: ev_rows ln (fst (fst a)) (st_mem (wr_st r)) (wr_ev r))
                   (zip args res))
@@ -146,7 +150,7 @@ Definition step (w : world) (o : op) : world * list (list Z) :=
             if n =? 0 then (w, [[2; ln; rank; NC_NOERR; 0]])
             else
               let '(r, file') := wait_one_x (rs_nb rs) (mk_args rs n toks) (w_file w) in
-              (set_file (set_rank w rank (mkrs (wr_st r) (write_back (rs_slots rs) toks (wr_ids r)))) file',
+              (set_file (set_rank w rank (mkrs (wr_st r) (write_back (rs_slots rs) toks (wr_ids r)))) file' (put_positions (rs_nb rs)),
                wait_row 2 ln rank n r :: ev_rows ln rank (st_mem (wr_st r)) (wr_ev r))
         | [] => (w, [])
         end
@@ -172,14 +176,16 @@ Definition step (w : world) (o : op) : world * list (list Z) :=
       (set_rank w rank (mkrs st' (rs_slots rs)), [[8; ln; rank; rc]])
   | OInqNumrecs ln rank => (w, [[9; ln; rank; st_numrecs (rs_nb (get_rank w rank))]])
   | OPut ln coll rank g start count stride data =>
-      let file' := dk_scatter (w_file w) (g_xsz g) (spec_offsets g start count stride) data in
+      let offs := spec_offsets g start count stride in
+      let file' := write_chunks (w_file w) (coalesce_list (map (fun o => (o, g_xsz g)) offs)) data in
+      let pos := flat_map (fun o => zrange o (g_xsz g)) offs in
       let nr := put_newrecs g start count stride in
       let bump := fun rs => mkrs (set_numrecs (rs_nb rs) (Z.max (st_numrecs (rs_nb rs)) nr)) (rs_slots rs) in
       if coll then
         let m := fold_left Z.max (map (fun rs => st_numrecs (rs_nb rs)) (w_ranks w)) nr in
-        (mkw (map (fun rs => mkrs (set_numrecs (rs_nb rs) (if g_isrec g then m else st_numrecs (rs_nb rs))) (rs_slots rs)) (w_ranks w))
-             (freeze file' (w_lo w) (w_hi w)) (w_hint w) (w_fmt w) (w_lo w) (w_hi w), [])
-      else (set_file (set_rank w rank (bump (get_rank w rank))) file', [])
+        (set_file (mkw (map (fun rs => mkrs (set_numrecs (rs_nb rs) (if g_isrec g then m else st_numrecs (rs_nb rs))) (rs_slots rs)) (w_ranks w))
+                       (w_file w) (w_hint w) (w_fmt w) (w_lo w) (w_map w)) file' pos, [])
+      else (set_file (set_rank w rank (bump (get_rank w rank))) file' pos, [])
   | OGet ln rank g start count stride =>
       let e := match g_shape g with
                | [] => NC_NOERR
@@ -189,10 +195,10 @@ Definition step (w : world) (o : op) : world * list (list Z) :=
       (w, [[10; ln; rank; e] ++ (if e =? NC_NOERR then dk_gather (w_file w) (g_xsz g) (spec_offsets g start count stride) else [])])
   | OSync ln =>
       let m := fold_left Z.max (map (fun rs => st_numrecs (rs_nb rs)) (w_ranks w)) 0 in
-      (mkw (map (fun rs => mkrs (set_numrecs (rs_nb rs) m) (rs_slots rs)) (w_ranks w)) (w_file w) (w_hint w) (w_fmt w) (w_lo w) (w_hi w), [])
+      (mkw (map (fun rs => mkrs (set_numrecs (rs_nb rs) m) (rs_slots rs)) (w_ranks w)) (w_file w) (w_hint w) (w_fmt w) (w_lo w) (w_map w), [])
   | OClose ln =>
       let res := map (fun rs => close_pending (rs_nb rs)) (w_ranks w) in
-      (mkw (map (fun p => mkrs (wr_st (snd p)) (rs_slots (fst p))) (zip (w_ranks w) res)) (w_file w) (w_hint w) (w_fmt w) (w_lo w) (w_hi w),
+      (mkw (map (fun p => mkrs (wr_st (snd p)) (rs_slots (fst p))) (zip (w_ranks w) res)) (w_file w) (w_hint w) (w_fmt w) (w_lo w) (w_map w),
        flat_map (fun p => let '(rank, r) := p in [8; ln; rank; wr_rc r] :: ev_rows ln rank (st_mem (wr_st r)) (wr_ev r))
                 (zip (zrange 0 (Zlen res)) res))
   | OSnap ln lo hi => (w, [[11; ln; lo] ++ dk_read (w_file w) lo (hi - lo)])
